@@ -38,13 +38,17 @@ func sharedStdImporter() types.Importer {
 	return stdImp
 }
 
-func checkDir(repo, dir string) *checked {
-	if c, ok := checkedDirs[dir]; ok {
+func checkDir(repo, dir string, only []string) *checked {
+	key := dir
+	if len(only) > 0 {
+		key = dir + "|" + strings.Join(only, ",")
+	}
+	if c, ok := checkedDirs[key]; ok {
 		return c
 	}
 	c := &checked{}
-	checkedDirs[dir] = c
-	c.fset, c.files, c.err = parseDir(repo, dir, nil)
+	checkedDirs[key] = c
+	c.fset, c.files, c.err = parseDir(repo, dir, only)
 	if c.err != nil {
 		return c
 	}
@@ -94,7 +98,7 @@ func findIf(fset *token.FileSet, body *ast.BlockStmt, cond string) (*ast.BlockSt
 				fb, fc = s.Body, s.Cond
 			}
 		case *ast.ForStmt:
-			if s.Init == nil && s.Post == nil && s.Cond != nil && exprText(fset, s.Cond) == cond {
+			if s.Cond != nil && exprText(fset, s.Cond) == cond { // init / post statements are not part of the iteration body
 				fb, fc = s.Body, s.Cond
 			}
 		}
